@@ -32,7 +32,7 @@ def digest(obj):
 
 
 # ------------------------------------------------------------------------------------
-_PIDS = []  # every worker interpreter started by this coordinator (scratch dirs swept at exit)
+_PIDS = []  # scratch dir of every worker interpreter started by this coordinator (swept at exit)
 
 
 def sweep_scratch():
@@ -40,8 +40,9 @@ def sweep_scratch():
 
     from . import fsseam
 
-    for pid in _PIDS:
-        shutil.rmtree(os.path.join(fsseam.scratch_base(), f"PVS{pid}"), ignore_errors=True)
+    for path in _PIDS:
+        if os.path.basename(path).startswith("PVS"):
+            shutil.rmtree(path, ignore_errors=True)
 
 
 class WorkerProc:
@@ -63,7 +64,7 @@ class WorkerProc:
         if not line:
             raise HarnessError(f"worker (hash seed {hashseed}) did not start: {self.stderr_text()}")
         self.hello = json.loads(line)
-        _PIDS.append(self.proc.pid)
+        _PIDS.append(self.hello["scratch"])
 
     def _drain(self):
         for line in self.proc.stderr:
